@@ -6,14 +6,14 @@
    All tensors of the model are flat batch-major lists; sample b is the slice [samp].  The batch-1 copy of a
    connection [conn_B1] has the same weights, biases and delays and batch size 1; sample b of the synapse state is
    [psyn] of C11/SynapseBatch.v.
-   [cstep_sample]: every operation of the model (forward with the undelayed F.linear / direct / unfold+matmul
+   [connection_step_sample]: every operation of the model (forward with the undelayed F.linear / direct / unfold+matmul
    branch or the delayed einsum branch fed by the per-sample delay selector, syncurrent, synspike, selector,
    `connection.delay = ...`, clear) that does not raise on the batch gives, on the batch-1 copy with sample b's
    input, sample b of the batched output and sample b of the batched state.
    [connection_batch_independent]: the same for every operation sequence.
    The delay selector is the delay parameter EXPANDED over the batch (linear.py:163, 488; conv.py:283): the proof
    shows that sample b of the selector of the batched connection is the selector of the batch-1 connection
-   ([selector_sample]), which is what "selectors expanded, not mixed" means.
+   ([connection_selector_sample]), which is what "selectors expanded, not mixed" means.
    Any number type; no axioms. *)
 From Coq Require Import List ZArith Bool Arith Lia.
 From Inferno Require Import Base.Num Gen.Infra Gen.Interpolation C01.Ring C04.Synapse C04.HistProofs.
@@ -171,7 +171,7 @@ Proof.
     rewrite flat_map_const_length, seq_length, Hblk. unfold nel. cbn. lia.
 Qed.
 
-Lemma selector_sample k : conn_wf k ->
+Lemma connection_selector_sample k : conn_wf k ->
   conn_selector NM (conn_B1 k) = pview (conn_selector NM k) /\
   sel_ok NM B (conn_sh k) (fst (conn_selector NM k)) (snd (conn_selector NM k)).
 Proof.
@@ -209,7 +209,7 @@ Lemma syn_step_sample c sh s fsh xs inj s' o : bsyn NM B sh s ->
   bsyn NM B sh s' /\ exists vals, o = SOFloat NM (B :: sh) vals /\ length vals = B * nel sh.
 Proof.
   intros Hbs Hx Hi H. destruct (list_eq_dec Nat.eq_dec fsh (B :: sh)) as [->|Hne].
-  - rewrite nel_cons in Hx, Hi. destruct (forward_sample NM B sh b Hb c s xs inj s' o Hbs Hx Hi H) as [E Hbs'].
+  - rewrite nel_cons in Hx, Hi. destruct (synapse_forward_sample NM B sh b Hb c s xs inj s' o Hbs Hx Hi H) as [E Hbs'].
     split; [reflexivity|]. split; [exact E|]. split; [exact Hbs'|]. exact (forward_out c sh s xs inj s' o H Hbs').
   - unfold forward in H. rewrite (rpush_bad_shape NM c _ fsh _ _ (proj1 Hbs) Hne) in H. discriminate.
 Qed.
@@ -527,13 +527,13 @@ Proof.
   - change (cv_d NM (conv_B1 x)) with (cv_d NM x). destruct (cv_d NM x); (split; [reflexivity|split; [reflexivity|intros Hw; exact Hw]]).
 Qed.
 
-Theorem cstep_sample c k s o k' s' out : conn_wf k -> bsyn NM B (conn_sh k) s -> cop_ok o ->
+Theorem connection_step_sample c k s o k' s' out : conn_wf k -> bsyn NM B (conn_sh k) s -> cop_ok o ->
   cstep NM c (k, s) o = ((k', s'), out) -> ~ raises out ->
   cstep NM c (conn_B1 k, psyn NM b s) (pcop o) = ((conn_B1 k', psyn NM b s'), pcout out) /\
   conn_wf k' /\ conn_sh k' = conn_sh k /\ bsyn NM B (conn_sh k) s'.
 Proof.
   intros Hwf Hbs Hok. pose proof Hbs as (Hs & Hc & Hn).
-  destruct (selector_sample k Hwf) as [Esel Hsel].
+  destruct (connection_selector_sample k Hwf) as [Esel Hsel].
   destruct o as [xsh xs inj| | | |d|]; cbn [cstep pcop cop_ok] in *.
   - destruct (conn_forward NM k c s xsh xs inj) as [s1 [vw|e]] eqn:Ef; intros H Hnr; injection H as <- <- <-;
       [|exfalso; apply Hnr; exact I].
@@ -574,7 +574,7 @@ Proof.
     destruct (cstep NM c (k, s) o) as [[k1 s1] out] eqn:E.
     destruct (crun NM c (k1, s1) ops) as [[kf' sf'] outs'] eqn:Er. injection Hrun as <- <- <-.
     inversion Hnr as [|? ? Hnr1 Hnr']; subst.
-    destruct (cstep_sample c k s o k1 s1 out Hwf Hbs Ho E Hnr1) as (E' & Hwf1 & Esh & Hbs1).
+    destruct (connection_step_sample c k s o k1 s1 out Hwf Hbs Ho E Hnr1) as (E' & Hwf1 & Esh & Hbs1).
     rewrite E'. rewrite <- Esh in Hbs1. rewrite (IH k1 s1 kf' sf' outs' Hwf1 Hbs1 Hops Er Hnr'). reflexivity.
 Qed.
 
@@ -599,7 +599,7 @@ Corollary connection_batch_independent_from_init B b c k ops kf sf outs :
   crun NM (with_shape NM c (1 :: conn_sh NM k)) (conn_B1 NM k, init NM (with_shape NM c (1 :: conn_sh NM k))) (map (pcop NM b) ops)
   = ((conn_B1 NM kf, psyn NM b sf), map (pcout NM b) outs).
 Proof.
-  intros Hb Hwf Hc Hok Hrun Hnr. destruct (init_sample NM c B (conn_sh NM k) b Hb Hc) as [E Hbs].
+  intros Hb Hwf Hc Hok Hrun Hnr. destruct (synapse_init_sample NM c B (conn_sh NM k) b Hb Hc) as [E Hbs].
   rewrite crun_with_shape, <- E.
   exact (connection_batch_independent NM B b Hb c ops k _ kf sf outs Hwf Hbs Hok Hrun Hnr).
 Qed.
